@@ -324,6 +324,44 @@ def run_triple(case):
           if not eqs(got, exp):
             return bad("bank:plain-member", "%s with the plain member %s (%s) on a %s input is not the bank of the member cast "
                        "to a filter" % (bank.__name__, label, pos, ik), exp[:4], got[:4], nt)
+  # a bank is a list: after it is edited in place (a member replaced - also by one with the same delays -
+  # appended, removed) its polynomials and its output are those of the CURRENT members
+  for bank, comb in ((ParallelFilter, lambda u, v: u + v), (CascadeFilter, lambda u, v: u * v)):
+    try:
+      bk = bank(mk(specs[0]), mk(specs[1]))
+      bk.numpoly, bk.denpoly                     # read once (anything kept from this read must not survive the edit)
+      list(bk(list(x), zero=Q(0)))
+      bk[0] = mk(specs[2])
+      steps = [("member 0 replaced", comb(R3[2], R3[1]), [2, 1])]
+      lib = RF({k: F(v) for k, v in bk.numpoly.terms()}, {k: F(v) for k, v in bk.denpoly.terms()})
+      ok = lib.same(steps[0][1])
+      if ok:
+        bk.append(mk(specs[0]))
+        lib = RF({k: F(v) for k, v in bk.numpoly.terms()}, {k: F(v) for k, v in bk.denpoly.terms()})
+        steps.append(("then a member appended", comb(comb(R3[2], R3[1]), R3[0]), [2, 1, 0]))
+        ok = lib.same(steps[-1][1])
+      if ok:
+        del bk[1]
+        lib = RF({k: F(v) for k, v in bk.numpoly.terms()}, {k: F(v) for k, v in bk.denpoly.terms()})
+        steps.append(("then member 1 removed", comb(R3[2], R3[0]), [2, 0]))
+        ok = lib.same(steps[-1][1])
+      if not ok:
+        return bad("bank:edited-in-place:polys", "%s: numpoly / denpoly after the bank was edited in place (%s) are not those "
+                   "of its current members" % (bank.__name__, steps[-1][0]), {"num": steps[-1][1].num, "den": steps[-1][1].den},
+                   {"num": str(bk.numpoly), "den": str(bk.denpoly)}, nt)
+      got = [Sym.lift(v) for v in bk(list(x), zero=Q(0))]
+      members = steps[-1][2]
+      if bank is ParallelFilter:
+        exp = [sum((outs[i][j] for i in members), Sym(0)) for j in range(NS)]
+      else:
+        exp = list(x)
+        for i in members:
+          exp = run_sig(mk(specs[i]), exp)
+      if not eqs(got, exp):
+        return bad("bank:edited-in-place:signal", "%s: the output after the bank was edited in place is not that of its current "
+                   "members" % bank.__name__, exp[:4], got[:4], nt)
+    except Exception as exc:
+      return bad("bank:edited-in-place:exception", "%s edited in place raised" % bank.__name__, None, repr(exc)[:200], nt)
   for n in (1, 2, 3):
     parts = [mk(s) for s in specs[:n]]
     for route, cas in (("args", CascadeFilter(*parts)), ("list", CascadeFilter(list(parts)))):
